@@ -205,6 +205,46 @@ pub fn endpoint(r: &mut Rng, https_only: bool) -> String {
 }
 
 /// Redirect URL text: must parse as an absolute URL; the *text* is what travels.
+/// a text that differs from `base` but parses to the SAME `Url` (scheme / host case, the explicit default port, `/` for an empty
+/// path, a raw space for `%20`): equal as URLs, different as the strings a server compares. `None` if no variant exists.
+pub fn redirect_variant(r: &mut Rng, base: &str) -> Option<String> {
+    let want = url::Url::parse(base).ok()?;
+    let mut cands: Vec<String> = Vec::new();
+    if let Some(i) = base.find("://") {
+        let (scheme, rest) = base.split_at(i);
+        let rest = &rest[3..];
+        let host_end = rest.find(|c| c == '/' || c == '?' || c == '#').unwrap_or(rest.len());
+        let (host, tail) = rest.split_at(host_end);
+        cands.push(format!("{}://{}{}", scheme.to_uppercase(), host, tail));
+        cands.push(format!("{}://{}{}", scheme, host.to_uppercase(), tail));
+        cands.push(format!("{}://{}{}", scheme, host.to_lowercase(), tail));
+        if !host.contains(':') || host.ends_with(']') {
+            let port = match scheme.to_lowercase().as_str() {
+                "https" => Some(443),
+                "http" => Some(80),
+                _ => None,
+            };
+            if let Some(p) = port {
+                cands.push(format!("{scheme}://{host}:{p}{tail}"));
+            }
+        }
+        if let Some(h) = host.strip_suffix(":443").or_else(|| host.strip_suffix(":80")) {
+            cands.push(format!("{scheme}://{h}{tail}"));
+        }
+        if tail.is_empty() {
+            cands.push(format!("{scheme}://{host}/"));
+        }
+    }
+    cands.push(base.replace("%20", " "));
+    cands.push(base.replace("/../x", "/../x/../x"));
+    cands.retain(|c| c != base && url::Url::parse(c).ok().as_ref() == Some(&want));
+    if cands.is_empty() {
+        None
+    } else {
+        Some(cands[r.below(cands.len() as u64) as usize].clone())
+    }
+}
+
 pub fn redirect_text(r: &mut Rng) -> String {
     loop {
         let base = *r.pick(&[
